@@ -639,6 +639,7 @@ pub struct L2Report {
     pub pairs_separated: usize,
     pub failures: Vec<L2Failure>,
     pub sample: String,
+    pub probe: crate::probe::ProbeReport,
 }
 
 fn exempt(class: usize, a: usize, b: usize) -> bool {
@@ -660,7 +661,26 @@ fn exempt(class: usize, a: usize, b: usize) -> bool {
 /// siblings and is flagged.  Floor: taken over all families, the eight modes
 /// must still fall into at least four classes — otherwise `set_default` has
 /// (almost) no effect on arithmetic at all.
-fn run_on_this_thread(only: Option<&str>) -> L2Report {
+/// L2r: the random "must move" probe (see `probe.rs`), on the calling thread.
+fn run_probe(only: Option<&str>, (p_from, n_probes): (u64, u64), failures: &mut Vec<L2Failure>) -> crate::probe::ProbeReport {
+    let rep = match only {
+        None => crate::probe::run_range(p_from, p_from + n_probes),
+        // `probe/<i>` or `probe/<a>-<b>` (a history: the probes a..=b in order)
+        Some(o) => match o.strip_prefix("probe/").map(|x| match x.split_once('-') {
+            Some((a, b)) => (a.parse::<u64>().ok(), b.parse::<u64>().ok()),
+            None => (x.parse::<u64>().ok(), x.parse::<u64>().ok()),
+        }) {
+            Some((Some(a), Some(b))) if a <= b => crate::probe::run_range(a, b + 1),
+            _ => crate::probe::ProbeReport::default(),
+        },
+    };
+    for f in &rep.failures {
+        failures.push(L2Failure { kind: "probe-insensitive".into(), family: format!("probe/{}", f.idx), detail: f.detail.clone() });
+    }
+    rep
+}
+
+fn run_on_this_thread(only: Option<&str>, n_probes: (u64, u64)) -> L2Report {
     let mut failures = Vec::new();
     let first = mode_index(RoundingMode::default());
     if first != HALF_EVEN {
@@ -951,11 +971,12 @@ fn run_on_this_thread(only: Option<&str>) -> L2Report {
         }
     }
     let _ = agreeing;
-    L2Report { families: n_fams, witness_evals, pairs_separated: pairs, failures, sample }
+    let probe = run_probe(only, n_probes, &mut failures);
+    L2Report { families: n_fams, witness_evals, pairs_separated: pairs, failures, sample, probe }
 }
 
 /// The value of an outcome as (coefficient, scale), if it has one.
-fn value_of(o: &Outcome) -> Option<(i128, u32)> {
+pub fn value_of(o: &Outcome) -> Option<(i128, u32)> {
     match o {
         Outcome::Dec(c, s) => Some((*c, *s as u32)),
         Outcome::Text { out, ok: true } => {
@@ -980,7 +1001,7 @@ fn value_of(o: &Outcome) -> Option<(i128, u32)> {
     }
 }
 
-fn cmp_values(a: (i128, u32), b: (i128, u32)) -> Option<std::cmp::Ordering> {
+pub fn cmp_values(a: (i128, u32), b: (i128, u32)) -> Option<std::cmp::Ordering> {
     let s = a.1.max(b.1);
     let x = a.0.checked_mul(10i128.checked_pow(s - a.1)?)?;
     let y = b.0.checked_mul(10i128.checked_pow(s - b.1)?)?;
@@ -1038,7 +1059,12 @@ fn pattern(rows: &[Vec<Outcome>]) -> Vec<u8> {
 }
 
 pub fn run(only: Option<String>) -> Result<L2Report, String> {
-    std::thread::spawn(move || run_on_this_thread(only.as_deref()))
+    run_n(only, (0, crate::probe::DEFAULT_PROBES))
+}
+
+/// `n_probes`: (first probe index, number of probes)
+pub fn run_n(only: Option<String>, n_probes: (u64, u64)) -> Result<L2Report, String> {
+    std::thread::spawn(move || run_on_this_thread(only.as_deref(), n_probes))
         .join()
         .map_err(|_| "L2 thread died".to_string())
 }
